@@ -378,7 +378,7 @@ def finish(prop, tier, seed, results, *, level="other", technique, bounds, assum
     for r in results:
         cfg = r.get("config")
         if r["_kind"] != "done":
-            if r["_kind"] == "error" and "MemoryError" not in str(r.get("error")):
+            if r["_kind"] == "error" and "MemoryError" not in str(r.get("error")) and "out of memory" not in str(r.get("error")):
                 harness.append({"config": cfg, "error": r.get("error"), "tb": r.get("tb")})
             else:
                 inconclusive.append({"config": cfg, "reason": r.get("error")})
